@@ -3,9 +3,83 @@
    Definitions only; soundness is proved in Proofs/CallGraphProofs.v. *)
 From Boreal Require Import Base.Prelude.
 
+(* ---------------------------------------------------------------- counter flow inside a guarded function
+   A guarded function as a small control-flow graph over *carriers* (the values that hold the recursion counter:
+   the parser's `Input`s, the compiler's `&mut RuleCompiler`), extracted by translators/guardflow.py.  Each node
+   carries a certificate: carrier -> counter relative to the counter on entry.  `check_prog` re-checks the
+   certificate node by node; Proofs/CallGraphFlow.v proves that a checked certificate holds on every path. *)
+Inductive ginstr :=
+| INop
+| IInc (v : nat)                          (* v.counter += 1 *)
+| IDec (v : nat)                          (* v.counter -= 1 *)
+| IBind (dst : nat) (srcs : list nat)     (* dst := the carrier handed back by a call fed with srcs *)
+| ICall (callees : list N) (srcs : list nat)   (* functions referred to in an expression mentioning srcs *)
+| IRetOk (v : nat)                        (* Ok((v, ..)) *)
+| IRetErr.                                (* Err(..) / `?` *)
+Record gnode := { gn_instr : ginstr; gn_succs : list nat; gn_cert : list (nat * nat) }.
+Record gprog := {
+  gp_fn : N;                   (* the guarded function *)
+  gp_copy : option N;          (* its unguarded copy in the graph: callees reached while the increment is not in force *)
+  gp_params : list nat;        (* carriers on entry *)
+  gp_nodes : list gnode        (* node id = position; node 0 is the entry *)
+}.
+
+Definition env := list (nat * nat).
+Fixpoint elook (e : env) (v : nat) : option nat :=
+  match e with [] => None | (w, d) :: r => if Nat.eqb w v then Some d else elook r v end.
+Definition eset (e : env) (v d : nat) : env := (v, d) :: e.
+
+Definition all_eq (e : env) (srcs : list nat) : option nat :=
+  match srcs with
+  | [] => None
+  | s :: r =>
+      match elook e s with
+      | Some d => if forallb (fun x => match elook e x with Some d' => Nat.eqb d' d | None => false end) r
+                  then Some d else None
+      | None => None
+      end
+  end.
+
+(* abstract transfer on certificates; None = the step is not justified *)
+Definition atransfer (i : ginstr) (e : env) : option env :=
+  match i with
+  | INop | ICall _ _ | IRetErr => Some e
+  | IInc v => match elook e v with Some d => Some (eset e v (S d)) | None => None end
+  | IDec v => match elook e v with Some (S d) => Some (eset e v d) | _ => None end
+  | IBind dst srcs => match all_eq e srcs with Some d => Some (eset e dst d) | None => None end
+  | IRetOk v => match elook e v with Some O => Some e | _ => None end     (* BALANCED: Ok hands back the entry counter *)
+  end.
+Definition sub_env (a b : env) : bool :=
+  forallb (fun p => match elook b (fst p) with Some d => Nat.eqb d (snd p) | None => false end) a.
+Definition check_node (p : gprog) (n : gnode) : bool :=
+  match atransfer (gn_instr n) (gn_cert n) with
+  | Some e' => forallb (fun s => match nth_error (gp_nodes p) s with
+                                 | Some n' => sub_env (gn_cert n') e'
+                                 | None => false
+                                 end) (gn_succs n)
+  | None => false
+  end.
+Definition init_env (p : gprog) (c : nat) : env := map (fun v => (v, c)) (gp_params p).
+(* `balanced`: the certificate of the function is consistent, hence (soundness lemma) on every path the counter
+   never goes below its value on entry and every Ok exit hands back exactly that value *)
+Definition check_prog (p : gprog) : bool :=
+  match gp_nodes p with
+  | n0 :: _ => sub_env (gn_cert n0) (init_env p O)
+  | [] => false
+  end && forallb (check_node p) (gp_nodes p).
+
+(* counter (relative to entry) with which the callees of a call node run: the smallest among the carriers the
+   expression mentions; no carrier mentioned or unknown = 0 *)
+Definition call_delta (cert : env) (srcs : list nat) : nat :=
+  match srcs with
+  | [] => O
+  | _ => fold_right (fun s acc => match elook cert s with Some d => Nat.min d acc | None => O end) 1%nat srcs
+  end.
+
 Record cgraph := {
   cg_adj : list (N * list N);       (* function id, ids of the functions it may call *)
-  cg_guards : list (N * N)          (* guarded function id, counter class *)
+  cg_guards : list (N * N);         (* guarded function id, counter class *)
+  cg_progs : list gprog             (* counter flow of the guarded functions of classes 0..2 *)
 }.
 
 Definition class_of (g : cgraph) (u : N) : option N :=
@@ -51,10 +125,34 @@ Definition compute_rank (g : cgraph) : rank_tbl :=
 
 Definition classes_ok (g : cgraph) : bool := forallb (fun p => snd p <? 4) (cg_guards g).
 
-(* THE CHECKER: every cycle of the call graph goes through a guarded function, and every guard
-   belongs to one of the four counter classes *)
+(* the flow of a guarded function agrees with the graph: callees that run with the increment in force are
+   successors of the guarded node, the others are successors of its unguarded copy *)
+Definition prog_matches (g : cgraph) (p : gprog) : bool :=
+  forallb (fun n => match gn_instr n with
+                    | ICall cs srcs =>
+                        if Nat.leb 1 (call_delta (gn_cert n) srcs)
+                        then forallb (is_edge g (gp_fn p)) cs
+                        else match gp_copy p with
+                             | Some f' => forallb (is_edge g f') cs
+                             | None => false
+                             end
+                    | _ => true
+                    end) (gp_nodes p).
+(* whoever calls the guarded function also calls its copy; the copy is not guarded *)
+Definition copy_ok (g : cgraph) (p : gprog) : bool :=
+  match gp_copy p with
+  | None => true
+  | Some f' => negb (guarded g f')
+               && forallb (fun q => negb (existsb (N.eqb (gp_fn p)) (snd q)) || existsb (N.eqb f') (snd q)) (cg_adj g)
+  end.
+Definition progs_ok (g : cgraph) : bool :=
+  forallb (fun p => check_prog p && prog_matches g p && copy_ok g p && guarded g (gp_fn p)) (cg_progs g)
+  && forallb (fun q => (snd q =? 3) || existsb (fun p => gp_fn p =? fst q) (cg_progs g)) (cg_guards g).
+
+(* THE CHECKER: every cycle of the call graph goes through a guarded function whose increment is in force, every
+   guard belongs to one of the four counter classes, and every counter-based guard is balanced *)
 Definition guards_cut_all_cycles (g : cgraph) : bool :=
-  check_rank g (compute_rank g) && classes_ok g.
+  check_rank g (compute_rank g) && classes_ok g && progs_ok g.
 
 Definition max_rank (t : rank_tbl) : nat := fold_right (fun p acc => Nat.max (snd p) acc) O t.
 (* number of functions on the longest guard-free call path *)
@@ -70,6 +168,20 @@ Definition class_count (g : cgraph) (k : N) (l : list N) : nat :=
 Definition respects (g : cgraph) (l0 l1 l2 l3 : nat) (chain : list N) : Prop :=
   (class_count g 0 chain <= S l0)%nat /\ (class_count g 1 chain <= S l1)%nat /\
   (class_count g 2 chain <= S l2)%nat /\ (class_count g 3 chain <= S l3)%nat.
+
+(* What a guard does, operationally.  By the flow theorem a guarded function hands its callees the counter it
+   was entered with plus one (callees of the unguarded copy get it unchanged), and everything else passes it on:
+   the counter of class k on entry of a function is the number of guarded functions of class k below it on the
+   stack.  A guarded function that finds its counter at the limit returns at once: it has no callee. *)
+Fixpoint guards_pass (g : cgraph) (lim : N -> nat) (below rest : list N) : Prop :=
+  match rest with
+  | [] => True
+  | u :: r =>
+      (r <> [] -> forall k, class_of g u = Some k -> (class_count g k below < lim k)%nat)
+      /\ guards_pass g lim (below ++ [u]) r
+  end.
+Definition lim4 (l0 l1 l2 l3 : nat) (k : N) : nat :=
+  if k =? 0 then l0 else if k =? 1 then l1 else if k =? 2 then l2 else l3.
 
 Definition depth_bound (g : cgraph) (l0 l1 l2 l3 : nat) : nat :=
   let gmax := (S l0 + S l1 + S l2 + S l3)%nat in
